@@ -175,7 +175,9 @@ fn run_builder(ctx: &mut Ctx, key: &SignedSecretKey) {
             let inp = format!("n={n} data={}", hx(&data));
             // reference: whole-slice source, unlimited sink
             let mut reference = Vec::new();
+            let mut ref_second = now_secs();
             let r0 = guarded(|| build(cfg, key, &data[..], &mut reference, 7));
+            let mut ref_exact = now_secs() == ref_second;
             if !matches!(r0, Ok(Ok(()))) {
                 ctx.oracle("builder_succeeds", &site, &inp, false, &format!("{r0:?}"));
                 continue;
@@ -188,9 +190,31 @@ fn run_builder(ctx: &mut Ctx, key: &SignedSecretKey) {
                 let mut out = Vec::new();
                 let r = guarded(|| build(cfg, key, ScheduledReader::new(&data, s), &mut out, 7));
                 let same = if cfg.sign {
-                    // signatures carry a wall-clock creation time: compare through the reader
+                    // signatures carry a wall-clock creation time (seconds): the bytes are comparable
+                    // only between two builds made within the same second (the signature value, its
+                    // MPI lengths and anything compressed after it change with the time stamp).
+                    // Otherwise the reference is rebuilt once; if the clock ticks again the comparison
+                    // falls back to what the reader returns.
+                    if !(ref_exact && now_secs() == ref_second) {
+                        ref_second = now_secs();
+                        reference.clear();
+                        let _ = guarded(|| build(cfg, key, &data[..], &mut reference, 7));
+                        let mut again = Vec::new();
+                        let _ = guarded(|| build(cfg, key, ScheduledReader::new(&data, s), &mut again, 7));
+                        ref_exact = now_secs() == ref_second;
+                        if ref_exact {
+                            out = again;
+                        }
+                    }
                     let rb = guarded(|| read_back(cfg, key, &out[..], Pattern::ReadToEnd));
-                    matches!(&rb, Ok(Ok((p, v))) if *p == data && *v) && out.len() == reference.len()
+                    let reads_back = matches!(&rb, Ok(Ok((p, v))) if *p == data && *v);
+                    if ref_exact {
+                        ctx.stat("builder:signed_compared_bytewise");
+                        reads_back && out == reference
+                    } else {
+                        ctx.stat("builder:signed_compared_through_reader_only");
+                        reads_back
+                    }
                 } else {
                     out == reference
                 };
@@ -244,6 +268,10 @@ fn run_builder(ctx: &mut Ctx, key: &SignedSecretKey) {
             }
         }
     }
+}
+
+fn now_secs() -> u64 {
+    std::time::SystemTime::now().duration_since(std::time::UNIX_EPOCH).map(|d| d.as_secs()).unwrap_or(0)
 }
 
 fn run_reader(ctx: &mut Ctx, key: &SignedSecretKey) {
@@ -384,6 +412,13 @@ fn run_model_ops(ctx: &mut Ctx) {
 pub fn run(ctx: &mut Ctx) {
     let key = keys::ed25519_x25519(ChaCha8Rng::seed_from_u64(99), KeyVersion::V4);
     run_model_ops(ctx);
-    run_builder(ctx, &key);
-    run_reader(ctx, &key);
+    // thorough: repeated with fresh payloads, schedules and fault positions
+    let rounds = ctx.pick(1u64, 160u64);
+    let base = ctx.seed;
+    for r in 0..rounds {
+        ctx.seed = base.wrapping_add(r.wrapping_mul(0x9E37_79B9_7F4A_7C15));
+        run_builder(ctx, &key);
+        run_reader(ctx, &key);
+    }
+    ctx.seed = base;
 }
